@@ -38,6 +38,7 @@ type vMeta struct {
 }
 
 type vCache struct {
+	mu      sync.Mutex // bursts of concurrent queries (op C) share the Cacher
 	m       map[interface{}]interface{}
 	byOp    map[int]interface{} // operation index -> key passed to Add
 	meta    map[interface{}]vMeta
@@ -51,6 +52,8 @@ func newVCache() *vCache {
 }
 
 func (c *vCache) Add(k, v interface{}) {
+	c.mu.Lock()
+	defer c.mu.Unlock()
 	resolver.VerifCacheTruncEntry(v)
 	c.m[k] = v
 	c.byOp[c.curOp] = k
@@ -58,6 +61,8 @@ func (c *vCache) Add(k, v interface{}) {
 }
 
 func (c *vCache) Get(k interface{}) (interface{}, bool) {
+	c.mu.Lock()
+	defer c.mu.Unlock()
 	v, ok := c.m[k]
 	if ok {
 		m := c.meta[k]
@@ -121,6 +126,38 @@ func (t *vRT) RoundTrip(req *http.Request) (*http.Response, error) {
 	}
 	return &http.Response{StatusCode: 200, Proto: t.out[4], Header: h,
 		Body: io.NopCloser(&bodyReader{b: unhx(t.out[1]), rerr: t.out[2] == "1"})}, nil
+}
+
+// barrierRT: the upstream of a burst (op C) answers only when all n requests have arrived (or
+// 400 ms passed: the ones that never come were served from the cache), so that none of the burst
+// can be answered from what another one of the same burst stored.
+type barrier struct {
+	mu      sync.Mutex
+	n, seen int
+	ch      chan struct{}
+}
+
+func (b *barrier) arrive() {
+	b.mu.Lock()
+	b.seen++
+	if b.seen == b.n {
+		close(b.ch)
+	}
+	b.mu.Unlock()
+	select {
+	case <-b.ch:
+	case <-time.After(400 * time.Millisecond):
+	}
+}
+
+type barrierRT struct {
+	inner *vRT
+	b     *barrier
+}
+
+func (t *barrierRT) RoundTrip(req *http.Request) (*http.Response, error) {
+	t.b.arrive()
+	return t.inner.RoundTrip(req)
 }
 
 // ---------------------------------------------------------------- DNS53 upstream
@@ -274,6 +311,99 @@ func execHistory(f []string, srv *udpSrv) (string, bool) {
 				delete(cache.m, k)
 			}
 			out = append(out, "x"+b01(had))
+		case g[0] == "C" && len(g) >= 5:
+			// C,<n>,<profilehex>,<payload>,<out…>: n identical DoH queries of one profile in flight
+			// together. They are started while the resolver's own mutex is held and released at
+			// once (whatever the resolver does under that mutex on entry, all n do it side by
+			// side), and the upstream answers only when all n requests have arrived.
+			nb, err := strconv.Atoi(g[1])
+			if err != nil || nb < 2 || nb > 8 {
+				return "bad-op", true
+			}
+			id := string(unhx(g[2]))
+			payload := unhx(g[3])
+			o := g[4:]
+			if !((len(o) == 1 && (o[0] == "E" || o[0] == "S")) || (len(o) == 5 && o[0] == "B")) {
+				return "bad-op", true
+			}
+			q0, err := query.New(append([]byte{}, payload...), loopback, loopback)
+			if err != nil {
+				return "bad-query", true
+			}
+			cache.curMeta = vMeta{qsec: append([]byte{}, qSection(q0.Payload)...), name: q0.Name}
+			dns.DOH.URL = ""
+			dns.DOH.GetProfileURL = func(query.Query) (string, string) { return cacheProfilePrefix + id, id }
+			bar := &barrier{n: nb, ch: make(chan struct{})}
+			results := make([]callRes, nb)
+			rts := make([]*vRT, nb)
+			bufs := make([][]byte, nb)
+			var wg sync.WaitGroup
+			unlock := dns.VerifCacheHoldMu()
+			for i := 0; i < nb; i++ {
+				i := i
+				rts[i] = &vRT{out: o, lmReal: rt.lmReal}
+				bufs[i] = make([]byte, bufLen)
+				q, _ := query.New(append([]byte{}, payload...), loopback, loopback)
+				wg.Add(1)
+				go func() {
+					defer wg.Done()
+					defer func() {
+						if x := recover(); x != nil {
+							results[i].pnc = x
+						}
+					}()
+					results[i].n, results[i].i, results[i].err = dns.VerifCacheDOH(context.Background(), q, bufs[i], &barrierRT{rts[i], bar})
+				}()
+			}
+			time.Sleep(30 * time.Millisecond)
+			unlock()
+			wg.Wait()
+			var toks []string
+			for i := 0; i < nb; i++ {
+				if results[i].pnc != nil {
+					out = append(out, fmt.Sprintf("PANIC:%v", results[i].pnc))
+					return strings.ReplaceAll(strings.Join(out, " "), "\n", " "), true
+				}
+				up := "-"
+				if rts[i].log != "" {
+					up = rts[i].log
+				}
+				tr := results[i].i.Transport
+				if tr == "" {
+					tr = "-"
+				}
+				n := results[i].n
+				if n < 0 {
+					n = 0
+				}
+				if n > bufLen {
+					n = bufLen
+				}
+				al := "-"
+				if up == "-" && results[i].err == nil {
+					switch m := cache.lastGet; {
+					case m == nil:
+						al = "none"
+					case string(m.qsec) == string(cache.curMeta.qsec):
+						al = "0"
+					default:
+						al = "x"
+					}
+				}
+				toks = append(toks, fmt.Sprintf("fc=%s,err=%s,tr=%s,n=%s,up=%s,al=%s",
+					b01(results[i].i.FromCache), b01(results[i].err != nil), tr, hx(bufs[i][:n]), up, al))
+			}
+			same := true
+			for _, t := range toks {
+				if t != toks[0] {
+					same = false
+				}
+			}
+			if same {
+				out = append(out, fmt.Sprintf("c%d,", nb)+toks[0])
+			} else {
+				out = append(out, "cdiff,"+strings.Join(toks, "/"))
+			}
 		case (g[0] == "D" && len(g) >= 6) || (g[0] == "N" && len(g) >= 3):
 			var payload []byte
 			if g[0] == "D" {
@@ -654,6 +784,23 @@ func (g *cacheGen) history() string {
 	ops := make([]string, 0, nops)
 	var stored []int // indexes of query operations (candidates for eviction)
 	advs := []int64{0, 1, 1, 1, 2, 2, 3, 4, 5, 5, 6, 9, 10, 11, 29, 30, 31, 59, 60, 61, 299, 300, 301, 3599, 3600, 86400, 100000}
+	if cacheOn && r.Chance(10) {
+		// a burst: the first queries of a profile never seen before are in flight together, then
+		// the first query of another new profile asks the same question
+		q := qs[r.Intn(len(qs))]
+		qsec := append(append(append([]byte{}, q.wire...), be16(q.typ)...), be16(q.class)...)
+		pa, pb := fmt.Sprintf("%06x", r.Intn(1<<24)), fmt.Sprintf("%06x", r.Intn(1<<24))
+		id := r.Intn(65536)
+		body, _ := g.response(id, qsec, q.typ, q.class)
+		ops = append(ops, fmt.Sprintf("C,%d,%s,%s,B,%s,0,-,HTTP/2.0", 2+r.Intn(3), hx([]byte(pa)), hx(g.query(q, id)), hx(body)))
+		stored = append(stored, len(ops)-1)
+		id2 := r.Intn(65536)
+		body2, _ := g.response(id2, qsec, q.typ, q.class)
+		ops = append(ops, fmt.Sprintf("D,p,%s,%s,0,B,%s,0,-,HTTP/2.0", hx([]byte(pb)), hx(g.query(q, id2)), hx(body2)))
+		stored = append(stored, len(ops)-1)
+		ts = append(ts, target{"p", pa}, target{"p", pb})
+		c.Stat("op:burst")
+	}
 	for i := 0; i < nops; i++ {
 		k := r.Intn(100)
 		switch {
@@ -708,7 +855,7 @@ func (g *cacheGen) history() string {
 				slowLeft--
 			}
 			ops = append(ops, fmt.Sprintf("D,%s,%s,%s,%d,%s", t.mode, hx([]byte(t.id)), hx(p), lat, o))
-			stored = append(stored, i)
+			stored = append(stored, len(ops)-1)
 			// whether the upstream is really contacted is up to the code; the generator's clock
 			// only feeds later last-modified choices, so an approximation is enough
 			c.Stat("op:doh")
@@ -752,7 +899,7 @@ func (g *cacheGen) history() string {
 				ds = append(ds, hx(b))
 				ops = append(ops, strings.Join(append([]string{"N", hx(p), "G"}, ds...), ","))
 			}
-			stored = append(stored, i)
+			stored = append(stored, len(ops)-1)
 			c.Stat("op:dns53")
 		case k < 92:
 			d := advs[r.Intn(len(advs))]
